@@ -674,6 +674,7 @@ def gen_res():
                '<g transform="matrix(0 0 0 0 0 0 0 0 0) translate"><rect width="2" height="2"/></g><g transform="scale(1,2,3,4,5,6,7,8)"><rect width="2" height="2"/></g>'
                '<defs><linearGradient id="lg" gradientTransform="matrix(1 0 0 1 0 0 9) rotate(1,2,3,4)"><stop offset="0" stop-color="red"/></linearGradient><pattern id="pt" width="2" height="2" patternTransform="translate(1 2 3 4 5 6 7)"><rect width="1" height="1"/></pattern></defs>'
                '<rect x="30" width="4" height="4" fill="url(#lg)"/><rect x="36" width="4" height="4" fill="url(#pt)"/>'
+               '<text><rect width="2" height="2"/></text><text text-anchor="end"><a href="#x"><tspan>sv04</tspan></a></text><text/><text><title>t</title></text>'
                '<text x="1 2 3" y="" dx="a" font-size="0" text-anchor="middle">sv03</text></svg>')
     files = {"odd.svg": (odd_svg, dict(mime="image/svg+xml", kind="svg"))}
     for i, par in enumerate(["xMid", "x", "", "none", "xMinYMax", "xMidYMid  slice", "defer xMidYMid", "slice"]):
@@ -684,15 +685,19 @@ def gen_res():
         'data:text/css;charset="utf-8",.a%7B%7D', 'data:a/b;x', 'data:text/plain,%', 'data:text/plain,%4', 'data:text/plain,%zz']))
     pars += '<font size=" ">s001</font><font size="\t">s002</font><font size="+">s003</font><font size="-">s004</font><td colspan=" ">s005</td><ol start=" "><li value=" ">s006</li></ol><hr size=" "><img width=" " height=" " src="par0.svg" alt="s007"><table cellspacing=" " border=" " width=" "><tr><td>s008</td></tr></table>'
     # declarations / rules that are invalid in an unusual way (must be dropped, never crash)
-    oddcss = ('.q1 { font: 12px / } .q2 { font: 12px /; color: red } .q3 { font: / ahem } .q4 { string-set: a content(), ; bookmark-label: , } .q5 { margin: 1px 2px 3px 4px 5px; padding: / } '
-              '@page :nth(of a) { margin: 1px } @page :nth( ) { margin: 1px } @page :nth(2n + ) { margin: 2px } @page x:first:first:blank { size: } .q6 { transform: rotate() scale(,) ; grid-area: / / / ; content: counter() counters(,) attr() } '
-              '.q7 { background: url( ; } .q8 { quotes: "a"; font-family: , ; counter-reset: a b c 1 2 ; transition: } @media { p { color: blue } } @media ( { } @font-face { src: ; unicode-range: u+ } @counter-style { } @counter-style x { system: ; symbols: ; additive-symbols: 0 }\n'
-              '.q19 { color:/* a *//* b *//* c */!important; margin: 1px /* x */ /* y */ ! /* z */ important; padding: 1px/**/!/**/important/**/; width: /**/ } '
-              '.q16 { font-size: 2ex } .q17 { font-size: 1ch } .q18 { font-size: 1.5rem; width: 3ex; height: 2ch; line-height: 2ex } @font-face { font-family: ff1; src: format("woff") } @font-face { font-family: ff2; src: format() } @font-face { font-family: ff3; src: local() format("truetype"), url() } '
-              '.q9 { font: normal } .q10 { font: normal normal normal normal } .q11 { font: italic } .q12 { font: normal small-caps } '
-              'html { --cy: var(--cy); --ca: var(--cb); --cb: var(--ca, 3px); --ok: 5px; --d: var(--d, 4px) } .q13 { width: var(--cy); margin-left: var(--ca); padding-left: var(--d) } '
-              '.q14 { margin-left: calc(1px + calc(var(--ok))); background: linear-gradient(rgb(var(--ok), 0, 0), blue); border-left: var(--none, var(--ok)) solid } .q15 { margin: var(--cy) var(--ok) var() var(1) var(--) }\n')
-    body = ("<style>%s</style><p>%s</p>" % (oddcss, pars) + '<table><colgroup span="99999999999999"></colgroup><colgroup><col span="99999999999999"><col span="1001"></colgroup><tr><td class="q1 q2 q3 q4 q5 q6 q7 q8 q9 q10 q11 q12 q13 q14 q15">o000</td><td class=q19 style="color:/* a *//* b *//* c */!important;/**/;margin:/*x*/1px/*y*//*z*/!important">o0d</td><td class=q16>o0a</td><td class=q17>o0b</td><td class=q18>o0c</td></tr></table>' +'<table><colgroup><col span="0"><col span="x"></colgroup><tr><td colspan="0">o001</td><td rowspan="0">o002</td><td colspan="abc" rowspan="-1">o003</td><td colspan="1000">o004</td></tr><tr><td>o005</td></tr></table>'
+    oddcss = ['.q1 { font: 12px / } .q2 { font: 12px /; color: red } .q3 { font: / ahem } .q4 { string-set: a content(), ; bookmark-label: , } .q5 { margin: 1px 2px 3px 4px 5px; padding: / } ',
+              '@page :nth(of a) { margin: 1px } @page :nth( ) { margin: 1px } @page :nth(2n + ) { margin: 2px } @page x:first:first:blank { size: } .q6 { transform: rotate() scale(,) ; grid-area: / / / ; content: counter() counters(,) attr() } ',
+              '.q8 { quotes: "a"; font-family: , ; counter-reset: a b c 1 2 ; transition: } @media { p { color: blue } } @font-face { src: ; unicode-range: u+ } @counter-style { } @counter-style x { system: ; symbols: ; additive-symbols: 0 }\n',
+              '.q19 { color:/* a *//* b *//* c */!important; margin: 1px /* x */ /* y */ ! /* z */ important; padding: 1px/**/!/**/important/**/; width: /**/ } ',
+              '.q16 { font-size: 2ex } .q17 { font-size: 1ch } .q18 { font-size: 1.5rem; width: 3ex; height: 2ch; line-height: 2ex } @font-face { font-family: ff1; src: format("woff") } @font-face { font-family: ff2; src: format() } @font-face { font-family: ff3; src: local() format("truetype"), url() } ',
+              '.q9 { font: normal } .q10 { font: normal normal normal normal } .q11 { font: italic } .q12 { font: normal small-caps } ',
+              'html { --cy: var(--cy); --ca: var(--cb); --cb: var(--ca, 3px); --ok: 5px; --d: var(--d, 4px) } .q13 { width: var(--cy); margin-left: var(--ca); padding-left: var(--d) } ',
+              '.q14 { margin-left: calc(1px + calc(var(--ok))); background: linear-gradient(rgb(var(--ok), 0, 0), blue); border-left: var(--none, var(--ok)) solid } .q15 { margin: var(--cy) var(--ok) var() var(1) var(--) }\n',
+              '@media ( { } .q7c { color: red }\n',
+              '.q7 { background: url( ; } .q7b { color: red }\n']
+    # one <style> element per piece: an unbalanced construct (the bad url of .q7 swallows everything after it) only costs its own element
+    oddstyles = "".join("<style>%s</style>" % piece for piece in oddcss)
+    body = ("%s<p>%s</p>" % (oddstyles, pars) + '<table><colgroup span="99999999999999"></colgroup><colgroup><col span="99999999999999"><col span="1001"></colgroup><tr><td class="q1 q2 q3 q4 q5 q6 q7 q8 q9 q10 q11 q12 q13 q14 q15">o000</td><td class=q19 style="color:/* a *//* b *//* c */!important;/**/;margin:/*x*/1px/*y*//*z*/!important">o0d</td><td class=q16>o0a</td><td class=q17>o0b</td><td class=q18>o0c</td></tr></table>' +'<table><colgroup><col span="0"><col span="x"></colgroup><tr><td colspan="0">o001</td><td rowspan="0">o002</td><td colspan="abc" rowspan="-1">o003</td><td colspan="1000">o004</td></tr><tr><td>o005</td></tr></table>'
             '<ol start="x" reversed><li value="z">o006</li><li>o007</li></ol><ol start="-3"><li>o008</li></ol>'
             '<p><img src="odd.svg" alt="alt1" width="-" height="1e"> <img src="odd.svg" width="0" height="0" alt="alt2"> <font size="+9" color="#zz">o009</font> <font size="">o010</font></p>'
             '<hr size="x" width="50%%"><pre width="0">o011</pre><p align="bogus" dir="x" lang="">o012</p>' + text)
@@ -1586,7 +1591,9 @@ def gen_wave4():
     css = page_css(220, 150, 10) + BASE + "p { margin: 0; orphans: 1; widows: 1 }\n.np { break-before: page }\n.ob { border-bottom: 6px solid black; padding-bottom: 8px }\n.in { break-inside: avoid }\n"
     body, flow, keep = [], [], []
     wi = 1
-    for F in range(0, 10):
+    for F in list(range(0, 10)) + list(range(100, 110)):
+        with_tail = F < 100
+        F %= 100
         for j in range(F + 1):
             ws = words("w", 2, wi); wi += 2; flow += ws
             body.append(para(ws, 'class=np' if j == 0 else ""))
@@ -1596,8 +1603,10 @@ def gen_wave4():
             ws = words("w", 2, wi); wi += 2; flow += ws; grp += ws
             inner.append(para(ws))
         keep.append(grp)
-        tail = words("w", 2, wi); wi += 2; flow += tail
-        body.append('<div class=ob><div class=in>%s</div>%s</div>' % ("".join(inner), para(tail)))
+        tail = []
+        if with_tail:  # (without a tail the avoid block is the last thing before the bottom decoration)
+            tail = words("w", 2, wi); wi += 2; flow += tail
+        body.append('<div class=ob><div class=in>%s</div>%s</div>' % ("".join(inner), para(tail) if tail else ""))
     scenario("pag-31", "pag", doc(css, "\n".join(body)), expect=dict(flows={"main": flow}, margin=True, page_w=220, page_h=150, conserve=True, geometry=True, fits_page=True, line_height=12, keep_together=keep))
 
     # pag-30: a page box with different top and bottom borders and paddings: the size given to AddPage is the declared one, the lines
@@ -1639,6 +1648,21 @@ def gen_wave4():
         same.append([r1[0], cell[0]])
         tables.append('<table style="break-before: page"><tr><td>%s</td></tr><tr><td>%s</td></tr><tr><td>%s</td></tr></table>' % (" ".join(r1), "<br>".join(cell), " ".join(r3)))
     scenario("table-04", "table", doc(css, "".join(tables)), expect=dict(flows=flows, margin=True, page_w=220, page_h=116, conserve=True, line_height=12, same_page=same))
+
+    # feat-19: leaders whose text is narrower than a pixel or empty; pag-32: a hidden page box with bleed and marks
+    css = page_css(240, 150, 10) + BASE + 'p.l::after { content: leader("."); font-size: 0.5px } p.m::after { content: leader("") } p.n::after { content: leader(dotted) "x"; font-size: 0 } p.o::after { content: leader(" ") "y" }\n'
+    W = words("w", 12)
+    scenario("feat-19", "feat", doc(css, '<p class=l>%s</p><p class=m>%s</p><p class=n>%s</p><p class=o>%s</p>' % (W[0], W[1], W[2], W[3]) + para(W[4:])), expect=dict(margin=True, page_w=240, page_h=150, line_height=12, sentinels=W))
+    css = "@page { size: 200px 140px; margin: 10px; visibility: hidden; bleed: 10px; marks: crop cross; background: red }\n" + BASE
+    W = words("w", 10)
+    scenario("pag-32", "pag", doc(css, para(W[:5]) + para(W[5:])), expect=dict(line_height=12, sentinels=W))
+
+    # feat-20: deprecated -weasy- prefixed properties (accepted with a warning): what they do must not depend on whether
+    # warnings are listened to
+    css = ("@page { -weasy-size: 230px 140px; margin: 10px; @bottom-center { content: \"pg\" counter(page) \"of\" counter(pages); font-family: ahem; font-size: 8px; line-height: 8px } }\n" + BASE +
+           "h2 { bookmark-level: 1; -weasy-bookmark-label: \"W \" content(text); -weasy-string-set: t content() } p { -weasy-hyphens: manual; -weasy-bookmark-level: none }\n")
+    W = words("w", 16)
+    scenario("feat-20", "feat", doc(css, '<h2>h001</h2>' + para(W[:8]) + '<h2>h002</h2>' + para(W[8:])), expect=dict(margin=True, line_height=12, sentinels=W + ["h001", "h002"]))
 
 def gen_reach():
     # documents aimed at range-over-map sites the evidence listed as never visited with >= 2 keys
